@@ -122,6 +122,8 @@ func ZZC03(n int) {
 			before, _ = zzServe(r, zzReq(method, path))
 			last = op
 		}
+		zzCheckRoutes("routes-mid", r, m, false) // observers run before every step too: whatever they cache must not outlive it
+
 		id++
 		if !zzApply(r, m, op, id) {
 			zzv.Assume(false)
